@@ -79,6 +79,10 @@ def c15_jobs(rng, quick, nhist, nenc):
         for pct in (0, 23, 33, 50, 90):
             for req in (0, -2, -4, 2, 3, 4, 5, 9):
                 var.append(gen.enc("aztec", list(c), (pct, req)))
+    # neighbouring sizes at a fixed (large) layer count: the number of check words changes by one or two from call to call (hundreds of them)
+    for layers in (15, 25):
+        for n in list(range(118, 100, -1)) + list(range(101, 110)):
+            var.append(gen.enc("aztec", [128 + (k * 7 + n) % 100 for k in range(n)], (23, layers)))
     for c in ("PDF417 text 123456", "abc", ""):
         for lv in list(range(9)) + list(range(8, -1, -1)):
             var.append(gen.enc("pdf", onedim.U(c), (lv,)))
